@@ -4,6 +4,9 @@
 -/
 import Asn1.Generated
 import Proofs.Parse
+import Proofs.OpenType
+import Props.C02
+import Props.C09
 
 namespace Asn1.C18
 
@@ -33,5 +36,103 @@ theorem resolve_captured (cfg : DecCfg) (ty : Ty) (inner : TLV) (hw : inner.WF) 
   have := parseOne_ser cfg.parse inner [] hw ho
   rw [List.append_nil] at this
   rw [this]
+
+
+/-! ### the whole property: typed inner value in, governing value picks the type, inner value out
+
+`encodeOpen` / `decodeOpen` (Asn1/OpenType.lean) model the open type branch of the SEQUENCE encoder and
+the second decoding pass (`decodeOpenTypes`); the container is
+`SEQUENCE { id T_id, value [UNTAGGED | [c n] IMPLICIT | [c n] EXPLICIT] ANY DEFINED BY id }`.
+Full statement (C18): every container (SEQUENCE and SET, single ANY and SET OF / SEQUENCE OF ANY).
+Proved: the SEQUENCE container with a single ANY field in its three taggings, any governing type whose
+values compare by equality (INTEGER, OID, …), any inner type of the region (nested, tagged, constructed),
+any type map (`map` is the map in force — the caller's override is just another function), both settings of
+`decodeOpenTypes`, mapped and unmapped governing values, any bytes following.  SET containers and
+SET OF / SEQUENCE OF ANY fields are decided by the oracle on the real code. -/
+
+theorem ber_enc_region (o : EncOpts) : EncRegion Generated.berEnc berProfile (Generated.berEnc.fixedChunk.getD o.maxChunk) :=
+  { boolT := by decide, chunk := Or.inr rfl, setOmit := Or.inl rfl }
+
+/-- the conclusion of the open type round trip for one decoder -/
+def OpenRoundTrip (dcfg : DecCfg) (idTy : Ty) (a : AnyTag) (map : Val → Option Ty) (g : Val) (ti : Ty) (w : Val)
+    (chunk b tail : Bytes) : Prop :=
+  -- resolution off: the field holds exactly the complete encoding of the inner value
+  decodeOpen dcfg idTy a map false (b ++ tail) = .ok (⟨g, chunk, none⟩, tail) ∧
+  -- resolution on, governing value not in the map: likewise
+  (map g = none → decodeOpen dcfg idTy a map true (b ++ tail) = .ok (⟨g, chunk, none⟩, tail)) ∧
+  -- resolution on, governing value mapped to the inner value's type: the inner value comes back
+  (map g = some ti → ∃ w', decodeOpen dcfg idTy a map true (b ++ tail) = .ok (⟨g, chunk, some w'⟩, tail) ∧ VEq ti w w')
+
+/-- **BER, definite and indefinite, any chunk size** -/
+theorem open_type_roundtrip_ber_partial (o : EncOpts) (hi : o.ifNotEmpty = false)
+    (idTy : Ty) (g : Val) (hreg : idTy.reg true Generated.berEnc o.defMode = true) (hwf : idTy.WF = true)
+    (hty : HasType idTy g = true) (hid : ∀ g', VEq idTy g g' → g' = g)
+    (a : AnyTag) (ha : a.ok = true)
+    (ti : Ty) (w : Val) (hregi : ti.reg true Generated.berEnc o.defMode = true) (hwfi : ti.WF = true)
+    (htyi : HasType ti w = true)
+    (map : Val → Option Ty) (b tail : Bytes) (h : encodeOpen Generated.berEnc o idTy a g ti w = .ok b) :
+    ∃ chunk, encItem Generated.berEnc o ti w = .ok chunk ∧
+      OpenRoundTrip Generated.berDecByType idTy a map g ti w chunk b tail :=
+  open_roundtrip Generated.berEnc Generated.berDecByType berProfile o hi (ber_enc_region o) C09.ber_compat (Or.inr rfl)
+    idTy g hreg hwf hty (noE3_false idTy g) hid a ha ti w hregi hwfi htyi (noE3_false ti w) map b tail h
+
+/-- **DER, read by the DER, CER and BER decoders** (values outside finding E3) -/
+theorem open_type_roundtrip_der_partial (o : EncOpts) (hi : o.ifNotEmpty = false)
+    (idTy : Ty) (g : Val) (hreg : idTy.reg true Generated.derEnc true = true) (hwf : idTy.WF = true)
+    (hty : HasType idTy g = true) (hn : noE3 true idTy g = true) (hid : ∀ g', VEq idTy g g' → g' = g)
+    (a : AnyTag) (ha : a.ok = true)
+    (ti : Ty) (w : Val) (hregi : ti.reg true Generated.derEnc true = true) (hwfi : ti.WF = true)
+    (htyi : HasType ti w = true) (hni : noE3 true ti w = true)
+    (map : Val → Option Ty) (b tail : Bytes) (h : encodeOpen Generated.derEnc o idTy a g ti w = .ok b) :
+    ∃ chunk, encItem Generated.derEnc o ti w = .ok chunk ∧
+      OpenRoundTrip Generated.derDecByType idTy a map g ti w chunk b tail ∧
+      OpenRoundTrip Generated.cerDecByType idTy a map g ti w chunk b tail ∧
+      OpenRoundTrip Generated.berDecByType idTy a map g ti w chunk b tail := by
+  obtain ⟨c1, he1, r1⟩ := open_roundtrip Generated.derEnc Generated.derDecByType derProfile o hi (C02.der_region o)
+    C02.der_profile_all_decoders.1 (Or.inl rfl) idTy g hreg hwf hty hn hid a ha ti w hregi hwfi htyi hni map b tail h
+  obtain ⟨c2, he2, r2⟩ := open_roundtrip Generated.derEnc Generated.cerDecByType derProfile o hi (C02.der_region o)
+    C02.der_profile_all_decoders.2.1 (Or.inl rfl) idTy g hreg hwf hty hn hid a ha ti w hregi hwfi htyi hni map b tail h
+  obtain ⟨c3, he3, r3⟩ := open_roundtrip Generated.derEnc Generated.berDecByType derProfile o hi (C02.der_region o)
+    C02.der_profile_all_decoders.2.2 (Or.inl rfl) idTy g hreg hwf hty hn hid a ha ti w hregi hwfi htyi hni map b tail h
+  rw [he1] at he2 he3
+  cases he2; cases he3
+  exact ⟨c1, he1, r1, r2, r3⟩
+
+/-- **CER, read by the CER and BER decoders** (values outside findings E1 and E3) -/
+theorem open_type_roundtrip_cer_partial (o : EncOpts) (hi : o.ifNotEmpty = false)
+    (idTy : Ty) (g : Val) (hreg : idTy.reg true Generated.cerEnc false = true) (hwf : idTy.WF = true)
+    (hty : HasType idTy g = true) (hn : noE3 true idTy g = true) (hid : ∀ g', VEq idTy g g' → g' = g)
+    (a : AnyTag) (ha : a.ok = true)
+    (ti : Ty) (w : Val) (hregi : ti.reg true Generated.cerEnc false = true) (hwfi : ti.WF = true)
+    (htyi : HasType ti w = true) (hni : noE3 true ti w = true)
+    (map : Val → Option Ty) (b tail : Bytes) (h : encodeOpen Generated.cerEnc o idTy a g ti w = .ok b) :
+    ∃ chunk, encItem Generated.cerEnc o ti w = .ok chunk ∧
+      OpenRoundTrip Generated.cerDecByType idTy a map g ti w chunk b tail ∧
+      OpenRoundTrip Generated.berDecByType idTy a map g ti w chunk b tail := by
+  obtain ⟨c1, he1, r1⟩ := open_roundtrip Generated.cerEnc Generated.cerDecByType cerProfile o hi (C02.cer_region o)
+    C02.cer_profile_cer_ber.1 (Or.inr rfl) idTy g hreg hwf hty hn hid a ha ti w hregi hwfi htyi hni map b tail h
+  obtain ⟨c2, he2, r2⟩ := open_roundtrip Generated.cerEnc Generated.berDecByType cerProfile o hi (C02.cer_region o)
+    C02.cer_profile_cer_ber.2 (Or.inr rfl) idTy g hreg hwf hty hn hid a ha ti w hregi hwfi htyi hni map b tail h
+  rw [he1] at he2
+  cases he2
+  exact ⟨c1, he1, r1, r2⟩
+
+/-- governing values of type INTEGER / OBJECT IDENTIFIER compare by equality -/
+theorem governing_integer (g g' : Val) (h : VEq (.prim .integer) g g') : g' = g := by
+  cases g <;> cases g' <;> simp_all [VEq]
+theorem governing_oid (g g' : Val) (h : VEq (.prim .oid) g g') : g' = g := by
+  cases g <;> cases g' <;> simp_all [VEq]
+
+/-- the hypotheses are met: `SEQUENCE { id OID, value [2] EXPLICIT ANY DEFINED BY id }` holding a record with an
+    OPTIONAL absent and a SEQUENCE OF member as inner value; the octets are those of the library -/
+example :
+    let ti : Ty := .seq (.cons .req (.prim .integer) (.cons .opt (.prim .boolean) (.cons .req (.seqOf (.prim (.str 4))) .nil)))
+    let w : Val := .seq [.int 5, .absent, .seqOf [.str [0x61]]]
+    (Ty.prim .oid).reg true Generated.derEnc true = true ∧ HasType (.prim .oid) (.oid [2, 999, 3]) = true ∧
+    (AnyTag.explicit .context 2).ok = true ∧ ti.reg true Generated.derEnc true = true ∧ ti.WF = true ∧
+    HasType ti w = true ∧ noE3 true ti w = true ∧
+    (encodeOpen Generated.derEnc {} (.prim .oid) (.explicit .context 2) (.oid [2, 999, 3]) ti w).toOption
+      = some [0x30, 0x11, 0x06, 0x03, 0x88, 0x37, 0x03, 0xa2, 0x0a, 0x30, 0x08, 0x02, 0x01, 0x05, 0x30, 0x03, 0x04, 0x01, 0x61] := by
+  decide +kernel
 
 end Asn1.C18
